@@ -1,10 +1,14 @@
 (* Property C12: the same waveform loads identically from VCD, FST and GHW.
-   Pinned: the value paths of VCD (wavemem Encoder, any block segmentation) and FST (SignalWriter with widening)
-   report the same changes for the same (time index, value) list, for bit vectors of width >= 1.
-   NOT proved: the GHW path (VecBuffer assembly), real and string variables, the hierarchy and the time tables of
-   whole files; those are decided by the three-format file generators (MANIFEST level_note). *)
+   Pinned: vcd_fst_same_report - the value paths of VCD (wavemem Encoder, any block segmentation) and FST (SignalWriter
+   with widening) report the same changes for the same (time index, value) list, for bit vectors of width >= 1;
+   same_meaning_same_report - two histories of VCD text changes and / or pre-packed raw changes (what the GHW reader
+   delivers) whose recorded values mean the same symbols at the same time indices are reported identically;
+   vcd_fst_same_report_rs - the same for real and string variables between the wavemem store and the FST writer.
+   NOT proved: that the GHW section reader / vector buffer delivers the packed form of what the file encodes (ve_set_spec
+   and ve_get_spec, Properties/C11.v, are the per-update facts), the hierarchy
+   and the time tables of whole files; those are decided by the three-format file generators (MANIFEST level_note). *)
 From WV Require Import Model.Base Model.Bits Model.WaveMem Model.FstLoad Spec.TimeSpec Spec.StoreSpec
-  Proofs.StoreProofs Proofs.EncoderProofs Proofs.FstProofs Proofs.CrossProofs.
+  Proofs.StoreProofs Proofs.EncoderProofs Proofs.FstProofs Proofs.CrossProofs Proofs.RealStringEnc Proofs.FstRealString.
 Open Scope N_scope.
 
 Check vcd_fst_same_report :
@@ -23,4 +27,45 @@ Check vcd_fst_same_report :
   exists sig, load_signal lz_decompress blocks id (EncBits bits) = Ok sig /\
               observe_signal sig = observe_signal (sw_finish sw).
 
+Check same_meaning_same_report :
+  forall (parse_f64 : list byte -> option (list byte)) (lz_compress : list byte -> list byte)
+         (lz_decompress : list byte -> nat -> option (list byte)),
+  (forall d n, (length d <= n)%nat -> lz_decompress (lz_compress d) n = Some d) ->
+  forall cap, 1 <= cap -> cap <= 65536 ->
+  forall id bits tpes1 tpes2 ops1 ops2 e1 e2 b1 t1 b2 t2,
+  (1 <= bits)%nat ->
+  nth_error tpes1 id = Some (EncBits bits) -> nth_error tpes2 id = Some (EncBits bits) ->
+  Forall (op_ok id bits) ops1 -> Forall (op_ok id bits) ops2 ->
+  N.of_nat (count_vcd id ops1) * (10 + N.of_nat bits) < 4294967264 ->
+  N.of_nat (count_vcd id ops2) * (10 + N.of_nat bits) < 4294967264 ->
+  run_ops parse_f64 lz_compress cap (enc_new tpes1) ops1 = Ok e1 ->
+  run_ops parse_f64 lz_compress cap (enc_new tpes2) ops2 = Ok e2 ->
+  enc_finish lz_compress e1 = Ok (b1, t1) -> N.of_nat (length t1) < 4294967296 ->
+  enc_finish lz_compress e2 = Ok (b2, t2) -> N.of_nat (length t2) < 4294967296 ->
+  Forall2 (fun ra rb => fst ra = fst rb /\ exists syms, means bits (snd ra) syms /\ means bits (snd rb) syms)
+          (recorded id ops1 [] false) (recorded id ops2 [] false) ->
+  exists s1 s2, load_signal lz_decompress b1 id (EncBits bits) = Ok s1 /\
+                load_signal lz_decompress b2 id (EncBits bits) = Ok s2 /\
+                observe_signal s1 = observe_signal s2.
+
+Check vcd_fst_same_report_rs :
+  forall (parse_f64 : list byte -> option (list byte)),
+  (forall r le, parse_f64 r = Some le -> length le = 8%nat) ->
+  forall (lz_compress : list byte -> list byte) (lz_decompress : list byte -> nat -> option (list byte)),
+  (forall d n, (length d <= n)%nat -> lz_decompress (lz_compress d) n = Some d) ->
+  forall cap, 1 <= cap -> cap <= 65536 -> forall id str tpes ops e blocks ttb changes sw,
+  nth_error tpes id = Some (rs_tpe str) ->
+  Forall (rs_op_ok id str) ops ->
+  ops_cost id ops < 4294967264 ->
+  run_ops parse_f64 lz_compress cap (enc_new tpes) ops = Ok e ->
+  enc_finish lz_compress e = Ok (blocks, ttb) -> N.of_nat (length ttb) < 4294967296 ->
+  Forall (fst_rs_ok str) changes ->
+  sw_run (sw_new (rs_tpe str)) changes = Ok sw ->
+  Forall2 (fun (c : N * fst_value) r => gdecodes parse_f64 str (fst c, fv_payload (snd c)) r)
+          changes (recorded_rs id ops [] false) ->
+  exists sig, load_signal lz_decompress blocks id (rs_tpe str) = Ok sig /\
+              observe_signal sig = observe_signal (sw_finish sw).
+
 Print Assumptions vcd_fst_same_report.
+Print Assumptions vcd_fst_same_report_rs.
+Print Assumptions same_meaning_same_report.
